@@ -90,8 +90,11 @@ def simple_violating_values(st):
         if ub in INT_BUILTINS:
             if f.min_inclusive is not None and f.min_inclusive == lo:
                 out.append((str(f.min_inclusive - 1), (owner, "minInclusive")))
+                # far outside, beyond what any machine integer holds (simple types carry their text)
+                out.append(("-" + "9" * 40, (owner, "minInclusive")))
             if f.max_inclusive is not None and f.max_inclusive == hi:
                 out.append((str(f.max_inclusive + 1), (owner, "maxInclusive")))
+                out.append(("9" * 40, (owner, "maxInclusive")))
             if f.min_exclusive is not None and f.min_exclusive + 1 == lo:
                 out.append((str(f.min_exclusive), (owner, "minExclusive")))
             if f.max_exclusive is not None and f.max_exclusive - 1 == hi:
